@@ -3,7 +3,13 @@ use super::Rule;
 use super::{Calculator, Controller};
 use crate::base::MetricEvent;
 use crate::{config, logging, utils};
+#[cfg(not(sentinel_verif))]
 use std::sync::{
+    atomic::{AtomicU64, Ordering},
+    Arc, Weak,
+};
+#[cfg(sentinel_verif)]
+use sentinel_verif_rt::sync::{
     atomic::{AtomicU64, Ordering},
     Arc, Weak,
 };
